@@ -144,6 +144,21 @@ NAMESPACES["strop"] = {
         "x.if.D.1.0": [],
     },
 }
+# documented types: header and field comments that end inside a list item / a numbered item / an indented block, and
+# comments whose paragraphs are long enough to be re-wrapped (C++ wraps at the comment width; a text wrapper object is
+# cached per width and indent) - what one type's comment leaves behind must not shape the next type's comment
+_LONG = "The measured value together with its variance as it is reported by the estimator once per control period of the unit under test."
+NAMESPACES["docs"] = {
+    "root": "x",
+    "files": {
+        "x/Alpha.1.0.dsdl": "# Operating mode of the unit. The mode is one of:\n#  - idle: nothing is commanded and the outputs are released\n"
+        "#  - active: the commanded set point is tracked\nuint8 mode\n# Numbered:\n#  1. first item that is rather long and goes on and on "
+        "until it has to be wrapped by whatever wraps comments in the target language, surely\nuint8 other\n" + _S,
+        "x/Beta.1.0.dsdl": "# " + _LONG + "\n# See Alpha for the operating modes.\nfloat32 value\n# " + _LONG + " " + _LONG + "\nfloat32 variance\n" + _S,
+        "x/y/Gamma.1.0.dsdl": "# " + _LONG + "\n#\n#     indented block that ends the comment\nuint8 v\n#  * a starred item at the very end\nuint8 w\n" + _S,
+    },
+    "deps": {"x.Alpha.1.0": [], "x.Beta.1.0": [], "x.y.Gamma.1.0": []},
+}
 # language / generator configurations other than the default one (event option `variant`)
 VARIANTS: typing.Dict[str, typing.Dict[str, typing.Any]] = {
     "prefix": {"overrides": {"stropping_prefix": "dsdl_"}},
@@ -1027,6 +1042,8 @@ def _core_f(a: dict, b: dict) -> bool:
 
 
 def _core1(ev: dict) -> bool:
+    if ev["ns"] == "docs":  # every order of the three documented types, built-in templates, every target
+        return ev["tpl"] == "builtin" and ev["pps"] == "none" and len(ev["S"]) == 3
     if ev["ns"] == "clash":  # the two pairs of coinciding names, both orders, C and C++
         pairs = ({"x.FooBar.1.0", "x.foo.Bar.1.0"}, {"x.q.T.1.0", "x.Q.T.1.0"})
         return ev["lang"] in ("c", "cpp") and ev["tpl"] == "builtin" and ev["pps"] == "none" and set(ev["S"]) in pairs
@@ -1085,7 +1102,7 @@ def run(ctx: Ctx) -> int:
     d1_space = 0
     for ev, sigma in full_alphabet():
         d1_space += 1
-        added_later = ev["ns"] in ("same", "clash", "strop") or ev.get("std") or ev["tpl"] == "userx"  # thinner slice: quick CPU budget
+        added_later = ev["ns"] in ("same", "clash", "strop", "docs") or ev.get("std") or ev["tpl"] == "userx"  # thinner slice: quick CPU budget
         if ctx.thorough or _core1(ev) or ctx.in_slice("d1|" + ev_id(ev), 64 if added_later else 16):
             d1[ev_id(ev)] = (ev, sigma)
     P2 = prefix_alphabet(NS_DEEP, ["none", "limit"])
